@@ -210,6 +210,8 @@ def tpl_size(size, v, k, ctor, half=0, _twin=False):
     if half == 1:
         from fractions import Fraction
         v = Fraction(v, 2)          # odd v: a value between two integers (e.g. -1/2); exact arithmetic, no floats
+    elif half == 2:
+        v = float("-inf")           # "less than 0" in the extreme
     try:
         if ctor:
             for mk in (lambda: TaskPool(pool_size=v), lambda: SimpleTaskPool(w.worker(1), pool_size=v)):
@@ -265,7 +267,7 @@ def families(tier):
                parts=parts_product(m=range(5), pfx=range(5), closed=(0, 1)),
                twin_pre=["m == 1", "pfx == 1", "closed == 0", "locked == 1"], twin_args=[2, 1, 1, 1, 0, 0, 1, 0]),
         Family(name="size", fn="tpl_size", params=["size", "v", "k", "ctor", "half"],
-               pre=["size >= 0", "0 <= k <= 3", "0 <= ctor <= 1", "0 <= half <= 1", "half == 0 or (-9 <= v <= 9)"],
-               parts=parts_product(ctor=(0, 1), k=range(4), half=(0, 1)),
+               pre=["size >= 0", "0 <= k <= 3", "0 <= ctor <= 1", "0 <= half <= 2", "half == 0 or (-9 <= v <= 9)", "half != 2 or v == -1"],
+               parts=parts_product(ctor=(0, 1), k=range(4), half=(0, 1, 2)),
                twin_pre=["ctor == 0", "k == 1", "half == 0"], twin_args=[2, -1, 1, 0, 0]),
     ]
